@@ -86,7 +86,11 @@ func main() {
 		if len(os.Args) > 4 {
 			only, _ = strconv.Atoi(os.Args[4])
 		}
-		os.Exit(props.ReplicaMain(os.Args[2], os.Args[3], only))
+		variant := 0
+		if len(os.Args) > 5 {
+			variant, _ = strconv.Atoi(os.Args[5])
+		}
+		os.Exit(props.ReplicaMain(os.Args[2], os.Args[3], only, variant))
 	case "list":
 		var ids []string
 		for id := range props.Registry {
